@@ -2,7 +2,7 @@
    In the model every entry point is [load]; that the library's entry points agree with each
    other is the correspondence check's claim, not a theorem (see DESIGN.md). *)
 From Coq Require Import List NArith ZArith Bool Lia.
-From SV Require Import Sx Str Omap Msd Simfile Proofs.MsdFacts Proofs.LoadFacts.
+From SV Require Import Sx Str Omap Msd Simfile Proofs.MsdFacts Proofs.LoadFacts Proofs.LoadSpec.
 Import ListNotations.
 Open Scope N_scope.
 
@@ -33,6 +33,39 @@ Print Assumptions C03_detect_rule.
 Theorem C03_detect_by_content : forall ps,
   detect_by_content ps = match ps with (k :: _) :: _ => if str_eqb (upper k) kVERSION then FSSC else FSM | _ => FSM end.
 Proof. reflexivity. Qed.
+
+(* ---- the documented object, stated on the parameter list ---- *)
+(* assigning key/value pairs in order: a key reads the value of the LAST pair that has it ... *)
+Theorem C03_repeated_key_last_value : forall (k : str) (kvs : list (str * val)),
+  get k (setall kvs []) = last_val k kvs None.
+Proof. intros k kvs. exact (setall_get k kvs []). Qed.
+Print Assumptions C03_repeated_key_last_value.
+
+(* ... and the keys stand in the order of their FIRST occurrence *)
+Theorem C03_repeated_key_first_position : forall (kvs : list (str * val)),
+  keys (setall kvs []) = first_occ [] (map fst kvs).
+Proof. intro kvs. exact (setall_keys kvs []). Qed.
+Print Assumptions C03_repeated_key_first_position.
+
+(* SM: every non-NOTES parameter is assigned under its upper-cased key with the value rule; every NOTES parameter
+   becomes one chart, in order; fewer than six components anywhere is the ValueError *)
+Theorem C03_sm_object : forall ps st,
+  load_sm_params ps st =
+  match sequence (map chart_from_msd (sm_chart_params ps)) with
+  | Some cs => of_status st {| sm_props := setall (sm_prop_kvs ps) []; sm_charts := cs |}
+  | None => LErrValue
+  end.
+Proof. exact load_sm_spec. Qed.
+Print Assumptions C03_sm_object.
+
+(* SSC: the parameters before the first NOTEDATA are the simfile's; every parameter after a NOTEDATA belongs to
+   that chart, up to the next NOTEDATA ([ssc_split]); each segment is assigned in order as above *)
+Theorem C03_ssc_object : forall ps st,
+  load_ssc_params ps st =
+  let '(h, cs) := ssc_split ps in
+  of_status st {| ssc_props := setall (kvs_of h) []; ssc_charts := map chart_of cs |}.
+Proof. exact load_ssc_spec. Qed.
+Print Assumptions C03_ssc_object.
 
 (* the value rule and the six-field rule *)
 Theorem C03_value_rule : forall key vs,
